@@ -21,6 +21,8 @@ def seeded_table():
     for d in sorted(mx):
         r = mx[d]; readme = open("%s/seeded/%s/README.md" % (V, d)).read().split("\n", 1)[0].lstrip("# ").strip()
         readme = re.sub(r"^C\d\d\s*/\s*m\d\s*(--|-|:)?\s*", "", readme)
+        readme = re.sub(r"^C\d\d seed:\s*", "", readme)
+        readme = {"C04-m8": "`/=` gets an arm of its own in the type checker that forgets the constness check", "C17-m8": "a \"line continuation\" skip rule (backslash + line break) that the position bookkeeping never sees"}.get(d, readme)
         if not r.get("applies"): rows.append("| %s | %s | (patch does not apply) | - |" % (d, readme)); continue
         ok = r["test_suite"]["passed"] == 158 and r["test_suite"]["failed_other_than_program_tests"] == 0
         rows.append("| %s | %s | %s | %s |" % (d, readme.replace("|", "\\|"), "yes" if ok else "NO (%s)" % r["test_suite"], ", ".join(r["caught_by"]) or "**not caught**"))
